@@ -185,8 +185,6 @@ def valid_tree(tree, tight=False):
         elif b.kind == 'list':
             if not b.tight and len(b.items) == 1 and len(nodefs(b.items[0].children)) < 2:
                 return False
-            if not b.items[0].children and len(b.items) == 1:
-                pass
             for it in b.items:
                 if not valid_tree(it.children, tight=b.tight):
                     return False
@@ -515,7 +513,7 @@ def gen_trees(max_blocks, max_depth, seed, count, start=0):
 # ------------------------------------------------------------------------------------------
 # exhaustive small-scope enumeration
 
-def _leaf_variants(with_ref):
+def _leaf_variants():
     out = [
         lambda: Node('para', inl=[T('foo')]),
         lambda: Node('para', inl=[T('foo'), Node('soft'), T('bar '),
@@ -537,17 +535,6 @@ def _leaf_variants(with_ref):
     return out
 
 
-def _seqs(n, d):
-    """All sibling sequences using exactly <= n blocks in total, nesting <= d."""
-    yield []
-    if n <= 0:
-        return
-    for k in range(1, n + 1):
-        for first in _blocks_exact(k, d):
-            for rest in _seqs(n - k, d):
-                yield [first] + rest
-
-
 def _seqs_exact(n, d):
     if n == 0:
         yield []
@@ -561,7 +548,7 @@ def _seqs_exact(n, d):
 def _blocks_exact(n, d):
     """Factories of single blocks that use exactly n blocks."""
     if n == 1:
-        for f in _leaf_variants(False):
+        for f in _leaf_variants():
             yield f
     if d <= 1 or n < 1:
         return
